@@ -1,92 +1,293 @@
 package interp
 
-import "fmt"
+import "strings"
 
-// Write-set monitor: Freeze marks every cell reachable from the given values;
-// a later store into a marked cell is a violation of "caller-owned arguments
-// are never modified" / non-interference.
+// Write-set monitors.
+//
+// Freeze(roots...) marks every cell reachable from the given values as
+// caller-owned; GlobalWrites(true) marks every cell reachable from the
+// package-level variables of the interpreted universe. A later store into a
+// marked cell (Store, MapUpdate, delete, copy, append in place) is a candidate
+// violation of "caller-owned arguments are never modified" (kind "write") or
+// of the non-interference condition behind concurrency safety (kind "global").
+// Writes performed while a sync.Mutex/RWMutex is held, inside sync.Once.Do or
+// through sync/atomic are classified as synchronised and are not flagged.
 
-var frozenCells map[*value]bool
-var frozenMaps map[*omap]bool
+var frozenCells map[*value]string
+var frozenMaps map[*omap]string
+var syncDepth int
 
-func freezeValue(v value, seen map[*value]bool) {
+func resetMonitors() {
+	frozenCells, frozenMaps, syncDepth = nil, nil, 0
+}
+
+func freezeValue(v value, kind string, seen map[*value]bool) {
 	switch v := v.(type) {
 	case *value:
 		if v == nil || seen[v] {
 			return
 		}
 		seen[v] = true
-		frozenCells[v] = true
-		freezeInner(v, seen)
+		if _, isNative := (*v).(native); isNative {
+			return // opaque library object (regexp, logger): trusted
+		}
+		frozenCells[v] = kind
+		freezeInner(v, kind, seen)
 	case iface:
-		freezeValue(v.v, seen)
+		freezeValue(v.v, kind, seen)
 	case []value:
+		v = v[:cap(v)]
 		for i := range v {
-			frozenCells[&v[i]] = true
-			freezeInner(&v[i], seen)
+			if seen[&v[i]] {
+				continue
+			}
+			seen[&v[i]] = true
+			frozenCells[&v[i]] = kind
+			freezeInner(&v[i], kind, seen)
 		}
 	case *omap:
 		if v != nil {
-			frozenMaps[v] = true
+			if _, ok := frozenMaps[v]; ok {
+				return
+			}
+			frozenMaps[v] = kind
 			for i := range v.vals {
-				freezeValue(v.vals[i], seen)
-				freezeValue(v.keys[i], seen)
+				freezeValue(v.vals[i], kind, seen)
+				freezeValue(v.keys[i], kind, seen)
 			}
 		}
 	case structure:
 		for i := range v {
-			frozenCells[&v[i]] = true
-			freezeInner(&v[i], seen)
+			frozenCells[&v[i]] = kind
+			freezeInner(&v[i], kind, seen)
 		}
 	case array:
 		for i := range v {
-			frozenCells[&v[i]] = true
-			freezeInner(&v[i], seen)
+			frozenCells[&v[i]] = kind
+			freezeInner(&v[i], kind, seen)
+		}
+	case *closure:
+		if v != nil {
+			for _, b := range v.Env {
+				freezeValue(b, kind, seen)
+			}
 		}
 	}
 }
 
-func freezeInner(p *value, seen map[*value]bool) {
+func freezeInner(p *value, kind string, seen map[*value]bool) {
 	switch x := (*p).(type) {
 	case structure:
 		for i := range x {
-			frozenCells[&x[i]] = true
-			freezeInner(&x[i], seen)
+			frozenCells[&x[i]] = kind
+			freezeInner(&x[i], kind, seen)
 		}
 	case array:
 		for i := range x {
-			frozenCells[&x[i]] = true
-			freezeInner(&x[i], seen)
+			frozenCells[&x[i]] = kind
+			freezeInner(&x[i], kind, seen)
 		}
 	default:
-		freezeValue(x, seen)
+		freezeValue(x, kind, seen)
 	}
 }
 
+func frozenKind(addr *value) string { return frozenCells[addr] }
+func frozenWhat(addr *value) string {
+	if frozenCells[addr] == "global" {
+		return "package-level state"
+	}
+	return "caller-owned memory"
+}
+func mapKind(m *omap) string { return frozenMaps[m] }
+func mapWhat(m *omap) string {
+	if frozenMaps[m] == "global" {
+		return "package-level"
+	}
+	return "caller-owned"
+}
+
+// targetFunc is the innermost non-harness function (without position), the
+// stable part of a write-violation's identity.
+func (e *Explorer) targetFunc() string {
+	w := e.targetWhere()
+	if i := strings.Index(w, " ("); i >= 0 {
+		return w[:i]
+	}
+	return w
+}
+
 func checkWrite(addr *value, fr *frame) {
-	if frozenCells != nil && frozenCells[addr] {
-		where := "?"
-		if CurFrame != nil {
-			where = CurFrame.fn.String()
-		}
-		X.Violations = append(X.Violations, Violation{Msg: fmt.Sprintf("write to caller-owned memory in %s", where), Trace: append([]bool(nil), X.trace...)})
+	if frozenCells == nil {
+		return
+	}
+	if kind, ok := frozenCells[addr]; ok {
 		delete(frozenCells, addr) // report each cell once
+		if syncDepth == 0 && !inInit {
+			what := "caller-owned memory"
+			if kind == "global" {
+				what = "package-level state"
+			}
+			X.addViolation(kind, "write to "+what+" in "+X.targetFunc(), X.targetWhere())
+		}
+	}
+}
+
+func checkMapWrite(m *omap) {
+	if frozenMaps == nil {
+		return
+	}
+	if kind, ok := frozenMaps[m]; ok && syncDepth == 0 && !inInit {
+		what := "caller-owned"
+		if kind == "global" {
+			what = "package-level"
+		}
+		X.addViolation(kind, "write to "+what+" map in "+X.targetFunc(), X.targetWhere())
 	}
 }
 
 func init() {
-	intrinsics[apiPkg+".Freeze"] = func(fr *frame, a []value) value {
+	ensure := func() {
 		if frozenCells == nil {
-			frozenCells, frozenMaps = map[*value]bool{}, map[*omap]bool{}
+			frozenCells, frozenMaps = map[*value]string{}, map[*omap]string{}
 		}
+	}
+	intrinsics[apiPkg+".Freeze"] = func(fr *frame, a []value) value {
+		ensure()
 		seen := map[*value]bool{}
 		for _, x := range a[0].([]value) {
-			freezeValue(x, seen)
+			freezeValue(x, "write", seen)
 		}
 		return nil
 	}
 	intrinsics[apiPkg+".Thaw"] = func(fr *frame, a []value) value {
-		frozenCells, frozenMaps = nil, nil
+		for k, v := range frozenCells {
+			if v == "write" {
+				delete(frozenCells, k)
+			}
+		}
+		for k, v := range frozenMaps {
+			if v == "write" {
+				delete(frozenMaps, k)
+			}
+		}
 		return nil
+	}
+	intrinsics[apiPkg+".GlobalWrites"] = func(fr *frame, a []value) value {
+		if !a[0].(bool) {
+			for k, v := range frozenCells {
+				if v == "global" {
+					delete(frozenCells, k)
+				}
+			}
+			for k, v := range frozenMaps {
+				if v == "global" {
+					delete(frozenMaps, k)
+				}
+			}
+			return nil
+		}
+		ensure()
+		seen := map[*value]bool{}
+		for g, cell := range fr.i.globals {
+			if g.Pkg != nil && strings.HasSuffix(g.Pkg.Pkg.Path(), "internal/zzverif") {
+				continue
+			}
+			if _, already := frozenCells[cell]; already {
+				continue
+			}
+			// caller-owned marks win over global marks
+			freezeGlobal(cell, seen)
+		}
+		return nil
+	}
+	// synchronisation primitives: writes under them are not interference
+	lock := func(fr *frame, a []value) value { syncDepth++; return nil }
+	unlock := func(fr *frame, a []value) value {
+		if syncDepth > 0 {
+			syncDepth--
+		}
+		return nil
+	}
+	for _, n := range []string{"(*sync.Mutex).Lock", "(*sync.RWMutex).Lock", "(*sync.RWMutex).RLock"} {
+		intrinsics[n] = lock
+	}
+	for _, n := range []string{"(*sync.Mutex).Unlock", "(*sync.RWMutex).Unlock", "(*sync.RWMutex).RUnlock"} {
+		intrinsics[n] = unlock
+	}
+	intrinsics["(*sync.Once).Do"] = func(fr *frame, a []value) value {
+		cell := a[0].(*value)
+		s := (*cell).(structure)
+		if done, _ := s[0].(bool); done {
+			return nil
+		}
+		// the Once's own state is library-internal
+		delete(frozenCells, &s[0])
+		s[0] = true
+		syncDepth++
+		defer func() { syncDepth-- }()
+		call(fr.i, fr, 0, a[1], nil)
+		return nil
+	}
+}
+
+func freezeGlobal(cell *value, seen map[*value]bool) {
+	if seen[cell] {
+		return
+	}
+	seen[cell] = true
+	if _, ok := frozenCells[cell]; !ok {
+		frozenCells[cell] = "global"
+	}
+	switch x := (*cell).(type) {
+	case structure:
+		for i := range x {
+			freezeGlobal(&x[i], seen)
+		}
+	case array:
+		for i := range x {
+			freezeGlobal(&x[i], seen)
+		}
+	default:
+		freezeValueKeep(x, seen)
+	}
+}
+
+// freezeValueKeep is freezeValue("global") that does not overwrite existing
+// (caller-owned) marks.
+func freezeValueKeep(v value, seen map[*value]bool) {
+	switch v := v.(type) {
+	case *value:
+		if v == nil || seen[v] {
+			return
+		}
+		if _, isNative := (*v).(native); isNative {
+			return
+		}
+		freezeGlobal(v, seen)
+	case iface:
+		freezeValueKeep(v.v, seen)
+	case []value:
+		v = v[:cap(v)]
+		for i := range v {
+			freezeGlobal(&v[i], seen)
+		}
+	case *omap:
+		if v != nil {
+			if _, ok := frozenMaps[v]; ok {
+				return
+			}
+			frozenMaps[v] = "global"
+			for i := range v.vals {
+				freezeValueKeep(v.vals[i], seen)
+				freezeValueKeep(v.keys[i], seen)
+			}
+		}
+	case *closure:
+		if v != nil {
+			for _, b := range v.Env {
+				freezeValueKeep(b, seen)
+			}
+		}
 	}
 }
